@@ -12,7 +12,8 @@ one() {
   out=$(CTVERIF_REPO=$S/repo CTVERIF_HOME=$S/home $BIN checkall 2>&1)
   if echo "$out" | grep -q "^VIOLATION"; then
     echo "$out" | grep -A1 "^VIOLATION" | grep "rule=" | cut -c1-300 | sed "s/^/$id: FALSE ALARM? /"
-  else echo "$id: silent ($(echo "$out" | grep -c ' quick: ') checks)"; fi
+  elif [ "$(echo "$out" | grep -c ' quick: ')" != 20 ]; then echo "$id: CHECKER DID NOT COMPLETE ($(echo "$out" | grep -c ' quick: ') of 20 checks): $(echo "$out" | grep -m1 -i 'fatal\|panic\|error' | cut -c1-200)"
+  else echo "$id: silent (20 checks)"; fi
   rm -rf $S
 }
 export -f one; export BIN
